@@ -1016,6 +1016,14 @@ func (c *codecV2) decodeRegionError(regionError *errorpb.Error) (*errorpb.Error,
 		errInfo.CurrentRegions = decodedRegions
 	}
 
+	if errInfo := regionError.BucketVersionNotMatch; errInfo != nil {
+		// The bucket keys of the region come in the same form as the bucket keys PD reports.
+		errInfo.Keys, err = c.DecodeBucketKeys(errInfo.Keys)
+		if err != nil {
+			return nil, err
+		}
+	}
+
 	return regionError, nil
 }
 
